@@ -1,1 +1,303 @@
-static void run_io(void) {}
+/* Import/export (binary + hex, both byte orders) and NAF / JSF recoding.  Included by h_c01.c.
+ * Byte buffers are exact-size heap blocks so that ASan's redzone starts right behind them. */
+
+enum { F_BE_BIN, F_LE_BIN, F_LE_HEX, F_BE_HEX, F__N };
+static const char *exp_name[F__N] = { "bn_export_be_bin", "bn_export_le_bin", "bn_export_le_hex", "bn_export_be_hex" };
+static const char *imp_name[F__N] = { "bn_import_be_bin", "bn_import_le_bin", "bn_import_le_hex", "bn_import_be_hex" };
+
+static int
+hexval(uint8_t c) {
+	if (c >= '0' && c <= '9') return (c - '0');
+	if (c >= 'a' && c <= 'f') return (c - 'a' + 10);
+	if (c >= 'A' && c <= 'F') return (c - 'A' + 10);
+	return (-1);
+}
+/* decode `len` bytes/chars of format f into v; returns 0 when well formed */
+static int
+decode_fmt(int f, const uint8_t *p, size_t len, R *v) {
+	uint8_t tmp[RL * 4]; size_t i, nb;
+	if (F_BE_BIN == f) { if (len > sizeof(tmp)) return (-1); r_from_be(v, p, len); return (0); }
+	if (F_LE_BIN == f) { if (len > sizeof(tmp)) return (-1); r_from_le(v, p, len); return (0); }
+	if (len & 1) return (-1);
+	nb = len / 2;
+	if (nb > sizeof(tmp)) return (-1);
+	for (i = 0; i < nb; i ++) {
+		int h = hexval(p[2 * i]), l = hexval(p[2 * i + 1]);
+		if (h < 0 || l < 0) return (-1);
+		tmp[i] = (uint8_t)((h << 4) | l);	/* byte i of the string, high nibble first */
+	}
+	if (F_LE_HEX == f) r_from_le(v, tmp, nb); else r_from_be(v, tmp, nb);
+	return (0);
+}
+/* encode v into exactly `units` bytes (bin) / byte pairs (hex); returns 0 if it does not fit */
+static int
+encode_fmt(int f, const R *v, size_t units, uint8_t *p, int upper) {
+	static const char lo[] = "0123456789abcdef", up[] = "0123456789ABCDEF";
+	const char *hx = upper ? up : lo; size_t i;
+	if (r_bytelen(v) > units) return (0);
+	for (i = 0; i < units; i ++) {
+		uint8_t byte = r_byte(v, i);
+		size_t pos = (F_LE_BIN == f || F_LE_HEX == f) ? i : (units - 1 - i);
+		if (F_BE_BIN == f || F_LE_BIN == f) p[pos] = byte;
+		else { p[2 * pos] = (uint8_t)hx[byte >> 4]; p[2 * pos + 1] = (uint8_t)hx[byte & 15]; }
+	}
+	return (1);
+}
+
+static void
+run_export(int f, const vset_t *sa) {
+	size_t i, ca, sz, maxsz; R av, got; const R *a = &av; bn_p X = slot[0];
+	int fl, fi, hex = (F_LE_HEX == f || F_BE_HEX == f);
+
+	for (i = 0; i < sa->n; i ++) {
+		vs_get(sa, i, &av);
+		for (ca = cap_min(a); ca <= MAXCAP; ca += (MAXCAP - cap_min(a)) ? (MAXCAP - cap_min(a)) : 1) {
+			if (!vh_begin(exp_name[f])) continue;
+			d_op = exp_name[f]; d_a = av; d_cap = ca; d_set = "every buffer size 0..capacity+1, AUTO_SIZE on/off";
+			vh_publish_desc();
+			maxsz = ca * DSZ * (hex ? 2 : 1) + 1;
+			for (sz = 0; sz <= maxsz; sz ++) for (fl = 0; fl < 2; fl ++) {
+				uint32_t flags = fl ? BN_EXPORT_F_AUTO_SIZE : 0;
+				uint8_t keep[2][RL * 8 + 8]; size_t keepn[2] = { 0, 0 }; int keeprc[2] = { 0, 0 };
+				for (fi = 0; fi < 2; fi ++) {
+					uint8_t *buf = (uint8_t *)malloc(sz ? sz : 1);
+					volatile int rc = -1; volatile size_t ret = (size_t)-7;
+					size_t len;
+					g_fill = fi ? 0x00 : 0xA5;
+					memset(buf, 0xEE, sz ? sz : 1);
+					bn_make(X, a, ca, g_fill);
+					g_crashed = 0;
+					CALL_COUNT();
+					switch (f) {
+					case F_BE_BIN: GUARDED(rc = bn_export_be_bin(X, flags, buf, sz, (size_t *)&ret)); break;
+					case F_LE_BIN: GUARDED(rc = bn_export_le_bin(X, flags, buf, sz, (size_t *)&ret)); break;
+					case F_LE_HEX: GUARDED(rc = bn_export_le_hex(X, flags, buf, sz, (size_t *)&ret)); break;
+					case F_BE_HEX: GUARDED(rc = bn_export_be_hex(X, flags, buf, sz, (size_t *)&ret)); break;
+					}
+					keeprc[fi] = g_crashed ? -99 : rc;
+					if (!g_crashed && RC_OK(rc)) {
+						/* what the caller reads: `ret` units with AUTO_SIZE (or for the hex string), the whole buffer for fixed-size binary */
+						len = (fl || hex) ? ret : sz;
+						if (ret > sz) {
+							vh_fail("size-reported", "a=0x%s size=%zu flags=%u rc=0 reported size %zu > buffer", HX(a, hx1), sz, flags, (size_t)ret);
+						} else if (0 != decode_fmt(f, buf, len, &got) || !r_eq(&got, a)) {
+							char dump[140]; vh_hex(dump, sizeof(dump), buf, (len < 64) ? len : 64);
+							vh_fail("value", "a=0x%s (%zu digit(s)) buffer=%zu flags=%u rc=0 reported=%zu bytes=%s decode to 0x%s stale=0x%02x",
+							    HX(a, hx1), r_ndigits(a), sz, flags, (size_t)ret, dump, HX(&got, hx2), g_fill);
+						} else if (0 == fi) {
+							vh_nontrivial();
+						}
+						keepn[fi] = (len < sizeof(keep[fi])) ? len : 0;
+						memcpy(keep[fi], buf, keepn[fi]);
+					}
+					free(buf);
+				}
+				if (RC_OK(keeprc[0]) != RC_OK(keeprc[1]) ||
+				    (RC_OK(keeprc[0]) && (keepn[0] != keepn[1] || 0 != memcmp(keep[0], keep[1], keepn[0]))))
+					vh_fail("stale-storage", "a=0x%s buffer=%zu flags=%u: rc %d vs %d or different bytes for fill 0xA5 / 0x00", HX(a, hx1), sz, flags, keeprc[0], keeprc[1]);
+			}
+		}
+	}
+}
+
+static void
+run_import(int f, const vset_t *sa) {
+	size_t i, ca, units; R av, got; const R *a = &av; bn_p X = slot[0];
+	int fi, hex = (F_LE_HEX == f || F_BE_HEX == f);
+
+	for (i = 0; i < sa->n; i ++) {
+		vs_get(sa, i, &av);
+		for (ca = 1; ca <= MAXCAP; ca ++) {	/* capacity independent of the value: too large a value must be refused */
+			if (!vh_begin(imp_name[f])) continue;
+			d_op = imp_name[f]; d_a = av; d_cap = ca; d_set = "every encoding length 0..capacity+1 bytes";
+			vh_publish_desc();
+			for (units = 0; units <= ca * DSZ + 1; units ++) {
+				size_t len = units * (hex ? 2 : 1);
+				uint8_t *buf; res_t r[2];
+				if (r_bytelen(a) > units) continue;
+				buf = (uint8_t *)malloc(len ? len : 1);
+				encode_fmt(f, a, units, buf, (int)(i & 1));
+				for (fi = 0; fi < 2; fi ++) {
+					R prev; volatile int rc = -1;
+					g_fill = fi ? 0x00 : 0xA5;
+					/* previous content of the destination: all ones / zero */
+					r_zero(&prev);
+					if (0 == fi) { r_capacity(&prev, ca); r_sub_ip(&prev, &(R){ 1, { 1 } }); }
+					bn_make(X, &prev, ca, g_fill);
+					g_crashed = 0;
+					CALL_COUNT();
+					switch (f) {
+					case F_BE_BIN: GUARDED(rc = bn_import_be_bin(X, buf, len)); break;
+					case F_LE_BIN: GUARDED(rc = bn_import_le_bin(X, buf, len)); break;
+					case F_LE_HEX: GUARDED(rc = bn_import_le_hex(X, buf, len)); break;
+					case F_BE_HEX: GUARDED(rc = bn_import_be_hex(X, buf, len)); break;
+					}
+					memset(&r[fi], 0, sizeof(r[fi]));
+					r[fi].rc = rc; r[fi].crashed = g_crashed;
+					if (g_crashed || !RC_OK(rc)) continue;
+					bn_read(X, &got); r[fi].v1 = got;
+					if (!r_eq(&got, a))
+						vh_fail("value", "encoding of 0x%s in %zu unit(s) into capacity %zu: rc=0 value=0x%s stale=0x%02x", HX(a, hx1), units, ca, HX(&got, hx2), g_fill);
+					else if (bn_denorm(X))
+						vh_fail("denormalized", "0x%s in %zu unit(s) into capacity %zu: value right, digits=%zu not normal", HX(a, hx1), units, ca, X->digits);
+					else if (0 == fi)
+						vh_nontrivial();
+				}
+				if (!res_same(&r[0], &r[1]))
+					vh_fail("stale-storage", "0x%s in %zu unit(s) into capacity %zu: rc %d/%d value 0x%s/0x%s for previous content all-ones+0xA5 / zero+0x00",
+					    HX(a, hx1), units, ca, r[0].rc, r[1].rc, HX(&r[0].v1, hx2), HX(&r[1].v1, hx3));
+				free(buf);
+			}
+		}
+	}
+}
+
+/* ---------------------------------------------------------------- NAF */
+/* value of sum d_i 2^i as (positive part, negative part) */
+static void
+signed_eval(const int8_t *d, size_t n, R *pos, R *neg) {
+	size_t i; R t;
+	r_zero(pos); r_zero(neg);
+	for (i = 0; i < n; i ++) {
+		if (0 == d[i]) continue;
+		r_set_u64(&t, (uint64_t)((d[i] < 0) ? -(int)d[i] : d[i]));
+		r_shl(&t, &t, (int)i);
+		if (d[i] > 0) r_add(pos, pos, &t); else r_add(neg, neg, &t);
+	}
+}
+static void
+run_naf(const vset_t *sa) {
+	size_t i, ca, w, ds; R av, pos, neg, t; const R *a = &av; bn_p X = slot[0];
+	int fi;
+
+	for (i = 0; i < sa->n; i ++) {
+		vs_get(sa, i, &av);
+		ca = (i & 1) ? MAXCAP : cap_min(a);
+		if (!vh_begin("bn_calc_naf")) continue;
+		d_op = "bn_calc_naf"; d_a = av; d_cap = ca; d_set = "w=2..6, array sizes bits..bits+2";
+		vh_publish_desc();
+		for (w = 2; w <= 6; w ++) for (ds = 0; ds < 3; ds ++) {
+			size_t size = (size_t)r_bitlen(a) + ds, k, j;
+			int8_t keep[2][RL * 32 + 8]; int keeprc[2]; size_t keepn[2] = { 0, 0 };
+			for (fi = 0; fi < 2; fi ++) {
+				int8_t *arr = (int8_t *)malloc(size ? size : 1);
+				volatile int rc = -1; volatile size_t cnt = (size_t)-7;
+				int bad = 0;
+				g_fill = fi ? 0x00 : 0xA5;
+				memset(arr, 0x55, size ? size : 1);
+				bn_make(X, a, ca, g_fill);
+				g_crashed = 0;
+				CALL_COUNT();
+				GUARDED(rc = bn_calc_naf(X, w, size, arr, (size_t *)&cnt));
+				keeprc[fi] = g_crashed ? -99 : rc;
+				if (!g_crashed && RC_OK(rc)) {
+					if (cnt > size) { bad = 1; vh_fail("size-reported", "a=0x%s w=%zu size=%zu rc=0 count=%zu", HX(a, hx1), w, size, (size_t)cnt); }
+					else {
+						signed_eval(arr, cnt, &pos, &neg); r_add(&t, a, &neg);
+						if (!r_eq(&pos, &t)) { bad = 1; vh_fail("value", "a=0x%s w=%zu: digits do not sum to a (positive part 0x%s, negative part 0x%s) stale=0x%02x", HX(a, hx1), w, HX(&pos, hx2), HX(&neg, hx3), g_fill); }
+						for (k = 0; k < cnt && !bad; k ++) {
+							int dk = arr[k];
+							if (0 == dk) continue;
+							if (0 == (dk & 1) || dk >= (1 << (w - 1)) || dk <= -(1 << (w - 1))) { bad = 1; vh_fail("naf-digit", "a=0x%s w=%zu digit[%zu]=%d not odd or |d| >= 2^(w-1)", HX(a, hx1), w, k, dk); }
+							for (j = k + 1; j < k + w && j < cnt && !bad; j ++)
+								if (0 != arr[j]) { bad = 1; vh_fail("naf-adjacent", "a=0x%s w=%zu non-zero digits at %zu and %zu", HX(a, hx1), w, k, j); }
+						}
+						keepn[fi] = cnt; memcpy(keep[fi], arr, cnt);
+					}
+					if (!bad && 0 == fi) vh_nontrivial();
+				}
+				free(arr);
+			}
+			if (RC_OK(keeprc[0]) != RC_OK(keeprc[1]) || (RC_OK(keeprc[0]) && (keepn[0] != keepn[1] || 0 != memcmp(keep[0], keep[1], keepn[0]))))
+				vh_fail("stale-storage", "a=0x%s w=%zu size=%zu: different outcome for fill 0xA5 / 0x00 (rc %d / %d)", HX(a, hx1), w, size, keeprc[0], keeprc[1]);
+		}
+	}
+}
+
+/* ---------------------------------------------------------------- JSF (Solinas; Hankerson-Menezes-Vanstone Alg. 3.50)
+ * value clause: both rows re-evaluate to the operands, entries in {-1,0,1}.
+ * form clauses (the three defining properties - the JSF is unique, so they pin the exact result):
+ *   1. of any three consecutive columns at least one is (0,0)
+ *   2. adjacent terms of a row never have opposite signs
+ *   3. if u[i][j+1]*u[i][j] != 0 then u[1-i][j+1] = +-1 and u[1-i][j] = 0 */
+static void
+run_jsf(const vset_t *sa, const vset_t *sb) {
+	size_t i, j, ds; R av, b, pos, neg, t; const R *a = &av; bn_p X = slot[0], Y = slot[1];
+	int fi;
+
+	for (i = 0; i < sa->n; i ++) {
+		vs_get(sa, i, &av);
+		if (!vh_begin("bn_calc_jsf")) continue;
+		d_op = "bn_calc_jsf"; d_a = av; d_cap = cap_min(a); d_set = vs_name(sb);
+		vh_publish_desc();
+		for (j = 0; j < sb->n; j ++) {
+			size_t off, bl;
+			vs_get(sb, j, &b);
+			bl = (size_t)((r_bitlen(a) > r_bitlen(&b)) ? r_bitlen(a) : r_bitlen(&b));
+			off = bl + 1;
+			for (ds = 0; ds < 3; ds ++) {
+				size_t size = 2 * off - 1 + ds * 2;	/* one short, exact, generous */
+				int keeprc[2];
+				for (fi = 0; fi < 2; fi ++) {
+					int8_t *arr = (int8_t *)malloc(size);
+					volatile int rc = -1; volatile size_t cnt = (size_t)-7, offr = (size_t)-7;
+					int bad = 0; size_t k; int row;
+					g_fill = fi ? 0x00 : 0xA5;
+					memset(arr, 0x55, size);
+					bn_make(X, a, cap_alt(a, j), g_fill);
+					bn_make(Y, &b, cap_alt(&b, i), g_fill);
+					g_crashed = 0;
+					CALL_COUNT();
+					GUARDED(rc = bn_calc_jsf(X, Y, size, arr, (size_t *)&cnt, (size_t *)&offr));
+					keeprc[fi] = g_crashed ? -99 : rc;
+					if (g_crashed || !RC_OK(rc)) { free(arr); continue; }
+					if (cnt > offr || 2 * offr > size) {
+						bad = 1; vh_fail("size-reported", "a=0x%s b=0x%s size=%zu rc=0 count=%zu offset=%zu", HX(a, hx1), HX(&b, hx2), size, (size_t)cnt, (size_t)offr);
+					} else {
+						const int8_t *u[2]; u[0] = arr; u[1] = arr + offr;
+						for (row = 0; row < 2 && !bad; row ++) {
+							const R *want = row ? &b : a;
+							for (k = 0; k < cnt; k ++) if (u[row][k] < -1 || u[row][k] > 1) { bad = 1; vh_fail("value", "a=0x%s b=0x%s row %d digit[%zu]=%d", HX(a, hx1), HX(&b, hx2), row, k, u[row][k]); break; }
+							if (bad) break;
+							signed_eval(u[row], cnt, &pos, &neg); r_add(&t, want, &neg);
+							if (!r_eq(&pos, &t)) { bad = 1; vh_fail("value", "a=0x%s b=0x%s: row %d does not re-evaluate to its operand stale=0x%02x", HX(a, hx1), HX(&b, hx2), row, g_fill); }
+						}
+						for (k = 0; k < cnt && !bad; k ++) {
+							if (k + 2 < cnt && (u[0][k] || u[1][k]) && (u[0][k + 1] || u[1][k + 1]) && (u[0][k + 2] || u[1][k + 2])) { bad = 1; vh_fail("jsf-form", "a=0x%s b=0x%s: three consecutive non-zero columns at %zu", HX(a, hx1), HX(&b, hx2), k); }
+							for (row = 0; row < 2 && !bad && k + 1 < cnt; row ++) {
+								int p = u[row][k] * u[row][k + 1];
+								if (-1 == p) { bad = 1; vh_fail("jsf-form", "a=0x%s b=0x%s: row %d opposite signs at %zu", HX(a, hx1), HX(&b, hx2), row, k); }
+								else if (0 != p && (0 == u[1 - row][k + 1] || 0 != u[1 - row][k])) { bad = 1; vh_fail("jsf-form", "a=0x%s b=0x%s: row %d adjacent non-zeros at %zu without the other row being (0, +-1)", HX(a, hx1), HX(&b, hx2), row, k); }
+							}
+						}
+					}
+					if (!bad && 0 == fi) vh_nontrivial();
+					free(arr);
+				}
+				if (RC_OK(keeprc[0]) != RC_OK(keeprc[1]))
+					vh_fail("stale-storage", "a=0x%s b=0x%s size=%zu: rc %d / %d for fill 0xA5 / 0x00", HX(a, hx1), HX(&b, hx2), size, keeprc[0], keeprc[1]);
+			}
+		}
+	}
+}
+
+static void
+run_io(void) {
+	int f, p;
+	for (f = 0; f < F__N; f ++)
+		for (p = 0; p < g_nunary; p ++) {
+#if C01_SCOPE == 0
+			if (g_unary[p] == &VS_EX2) { run_export(f, &VS_EX2); run_import(f, &VS_EX2); continue; }
+#endif
+			run_export(f, g_unary[p] == &VS_A4 ? &VS_A4 : g_unary[p]);
+			run_import(f, g_unary[p]);
+		}
+	for (p = 0; p < g_nunary; p ++)
+		run_naf(g_unary[p]);
+#if C01_SCOPE == 0
+	run_jsf(&VS_EX1, &VS_EX1);
+	run_jsf(&VS_A3, &VS_A3);
+#else
+	run_jsf(g_small, g_small);
+#endif
+}
